@@ -107,18 +107,32 @@ pub struct Scenario {
     pub forms: Vec<Form>,
     pub stamps: Vec<i64>,
     pub later: bool,
+    /// free-form stratum: explicit per-replica suffixes (used instead of `forms` when non-empty):
+    /// (property, value or removal, timestamp in ms) — values come from a small alphabet shared by
+    /// all replicas, so that one replica's change can coincide with an *earlier* change of another
+    pub free: Vec<Vec<(String, Option<String>, i64)>>,
+}
+
+fn free_suffix(ops: &[(String, Option<String>, i64)]) -> Vec<AbsOp> {
+    ops.iter()
+        .map(|(p, v, t)| match v {
+            Some(v) => AbsOp::Set(t1(), p.clone(), v.clone(), at_ms(*t)),
+            None => AbsOp::Remove(t1(), p.clone(), at_ms(*t)),
+        })
+        .collect()
 }
 
 /// Run one scenario under one sync order; returns the final common state.
 fn run_order(sc: &Scenario, order: &[usize]) -> Result<(Tasks, Tasks), String> {
-    let n = sc.forms.len();
+    let n = if sc.free.is_empty() { sc.forms.len() } else { sc.free.len() };
     let chain = ChainRef::new();
     let mut reps: Vec<R> = (0..n).map(|i| new_replica(i, StoreKind::Mem, &chain)).collect();
     let base = concretise(&mut reps[0].rep, &[AbsOp::Create(t1()), AbsOp::Set(t1(), "p".into(), "0".into(), ts(0)), AbsOp::Set(t1(), "q".into(), "0".into(), ts(0))])?;
     block_on(reps[0].rep.commit_operations(base)).map_err(|e| e.to_string())?;
     quiesce(&mut reps, &chain, 6)?;
     for r in 0..n {
-        let ops = concretise(&mut reps[r].rep, &suffix(sc.forms[r], r, sc.stamps[r]))?;
+        let abs = if sc.free.is_empty() { suffix(sc.forms[r], r, sc.stamps[r]) } else { free_suffix(&sc.free[r]) };
+        let ops = concretise(&mut reps[r].rep, &abs)?;
         block_on(reps[r].rep.commit_operations(ops)).map_err(|e| e.to_string())?;
     }
     let settle = |reps: &mut Vec<R>| -> Result<(), String> {
@@ -224,8 +238,11 @@ fn classify(sc: &Scenario) -> &'static str {
 }
 
 pub fn judge(sc: &Scenario, tag: &str, index: u64, out: &mut CaseOut) {
-    let replay = json!({"stratum": tag, "index": index, "forms": format!("{:?}", sc.forms), "stamps": sc.stamps, "later": sc.later});
-    let n = sc.forms.len();
+    let replay = json!({"stratum": tag, "index": index, "forms": format!("{:?}", sc.forms), "stamps": sc.stamps, "later": sc.later, "free": format!("{:?}", sc.free)});
+    let n = if sc.free.is_empty() { sc.forms.len() } else { sc.free.len() };
+    if !sc.free.is_empty() {
+        return judge_free(sc, replay, index, out);
+    }
     let mut finals: Vec<(Vec<usize>, Tasks, Tasks)> = vec![];
     for order in permutations(n) {
         out.evaluations += 1;
@@ -340,12 +357,89 @@ pub fn judge(sc: &Scenario, tag: &str, index: u64, out: &mut CaseOut) {
     }
 }
 
+/// Free-form suffixes (several updates per replica, values shared between replicas): the rules give no
+/// crisp winner for every such history, so the oracle demands (T2) the same final state under every
+/// sync order, (T1') for a property on which every replica made at most one change the greatest
+/// timestamp wins (ties: one of the tied values), (T3') a property only one replica touched ends with
+/// that replica's last value, and nothing that nobody wrote appears.
+fn judge_free(sc: &Scenario, replay: serde_json::Value, index: u64, out: &mut CaseOut) {
+    let n = sc.free.len();
+    let mut finals: Vec<(Vec<usize>, Tasks)> = vec![];
+    for order in permutations(n) {
+        out.evaluations += 1;
+        match run_order(sc, &order) {
+            Ok((a, _)) => finals.push((order, a)),
+            Err(e) => {
+                let class = if e.contains("sync error") { "sync-error" } else if e.contains("no quiescence") { "no-quiescence" } else { "diverged" };
+                out.violate(format!("run/{class}"), format!("order {order:?}: {e}"), replay.clone());
+                return;
+            }
+        }
+    }
+    out.count("scenario_order_runs", finals.len() as u64);
+    let (o0, a0) = &finals[0];
+    for (o, a) in &finals[1..] {
+        if a != a0 {
+            out.violate("order-dependent/free-form".to_string(), format!("final state depends on the sync order: order {o0:?} -> {} ; order {o:?} -> {}", model::show_tasks(a0), model::show_tasks(a)), replay.clone());
+            return;
+        }
+    }
+    out.count("order_independence_checks", 1);
+    out.count("free_form_scenarios", 1);
+    for prop in ["p", "q"] {
+        let per: Vec<Vec<&(String, Option<String>, i64)>> = sc.free.iter().map(|ops| ops.iter().filter(|o| o.0 == prop).collect()).collect();
+        let got = a0.get(&t1()).and_then(|m| m.get(prop)).cloned();
+        let touched: Vec<usize> = (0..n).filter(|r| !per[*r].is_empty()).collect();
+        let mut written: BTreeSet<Option<String>> = per.iter().flatten().map(|o| o.1.clone()).collect();
+        if touched.is_empty() {
+            written.insert(Some("0".into()));
+        }
+        if !a0.contains_key(&t1()) {
+            out.violate("T1/task-lost".to_string(), "the task vanished although nobody deleted it".to_string(), replay.clone());
+            return;
+        }
+        if !written.contains(&got) {
+            out.violate("free-form/invented-value".to_string(), format!("{prop} = {got:?}, which no concurrent change wrote ({written:?})"), replay.clone());
+            return;
+        }
+        if touched.len() == 1 {
+            let want = per[touched[0]].last().unwrap().1.clone();
+            if got != want {
+                out.violate("T3/unconflicted-change-dropped".to_string(), format!("only replica {} changed {prop} (last value {want:?}) but the final value is {got:?}", touched[0]), replay.clone());
+                return;
+            }
+            out.count("unconflicted_changes_checked", 1);
+        } else if per.iter().all(|v| v.len() <= 1) && touched.len() >= 2 {
+            let max = per.iter().flatten().map(|o| o.2).max().unwrap();
+            let allowed: BTreeSet<Option<String>> = per.iter().flatten().filter(|o| o.2 == max).map(|o| o.1.clone()).collect();
+            if !allowed.contains(&got) {
+                out.violate("T1/winner".to_string(), format!("{prop} = {got:?}, the rules allow {allowed:?}"), replay.clone());
+                return;
+            }
+            out.count("rule_expectations_checked", 1);
+        }
+    }
+    if sc.free.iter().filter(|f| !f.is_empty()).count() >= 2 {
+        out.nontrivial = Some(fnv(format!("{:?}", sc.free).as_bytes()));
+    }
+    if index % 499 == 1 {
+        out.sample = Some(json!({"free": format!("{:?}", sc.free), "orders_run": finals.len(), "final": model::show_tasks(a0)}));
+    }
+}
+
 /// Regression corpus: F5 (tie) and F12 (equal values merged, later timestamp forgotten).
 fn corpus() -> Vec<Scenario> {
     vec![
-        Scenario { forms: vec![Form::SetP, Form::SetP], stamps: vec![50_000, 50_000], later: false },
-        Scenario { forms: vec![Form::SetP, Form::RmP, Form::RmP], stamps: vec![200_000, 100_000, 300_000], later: false },
-        Scenario { forms: vec![Form::SetP, Form::SetPSame, Form::SetPSame], stamps: vec![200_000, 100_000, 300_000], later: false },
+        Scenario { forms: vec![Form::SetP, Form::SetP], stamps: vec![50_000, 50_000], later: false, free: vec![] },
+        Scenario { forms: vec![Form::SetP, Form::RmP, Form::RmP], stamps: vec![200_000, 100_000, 300_000], later: false, free: vec![] },
+        Scenario { forms: vec![Form::SetP, Form::SetPSame, Form::SetPSame], stamps: vec![200_000, 100_000, 300_000], later: false, free: vec![] },
+        // F17: A sets p=x@10 then p=y@20, B concurrently sets p=x@30 (identical to A's *first* change)
+        Scenario {
+            forms: vec![],
+            stamps: vec![],
+            later: false,
+            free: vec![vec![("p".into(), Some("X".into()), 10_000), ("p".into(), Some("Y".into()), 20_000)], vec![("p".into(), Some("X".into()), 30_000)]],
+        },
     ]
 }
 
@@ -381,7 +475,7 @@ pub fn run(ctx: &Ctx) -> Outcome {
             let rel = k % 5;
             k /= 5;
             let later = k % 2 == 1;
-            let sc = Scenario { forms: vec![fa, fb], stamps: vec![200_500, [100_000, 200_500, 300_000, 200_200, 200_700][rel as usize]], later };
+            let sc = Scenario { forms: vec![fa, fb], stamps: vec![200_500, [100_000, 200_500, 300_000, 200_200, 200_700][rel as usize]], later, free: vec![] };
             let mut out = CaseOut::new();
             out.evaluations = 0;
             judge(&sc, "pairs-exhaustive", i, &mut out);
@@ -397,7 +491,7 @@ pub fn run(ctx: &Ctx) -> Outcome {
         for same in [Form::RmP, Form::SetPSame, Form::RmQ] {
             for other in [Form::SetP, Form::RmP, Form::SetPSame, Form::SetQ] {
                 for stamps in [[200_000, 100_000, 300_000], [200_000, 300_000, 100_000], [100_000, 200_000, 300_000], [300_000, 100_000, 200_000], [200_000, 200_000, 300_000], [200_000, 100_000, 100_000], [200_500, 200_200, 200_700], [200_500, 200_700, 200_200]] {
-                    scs.push(Scenario { forms: vec![other, same, same], stamps: stamps.to_vec(), later: false });
+                    scs.push(Scenario { forms: vec![other, same, same], stamps: stamps.to_vec(), later: false, free: vec![] });
                 }
             }
         }
@@ -418,6 +512,7 @@ pub fn run(ctx: &Ctx) -> Outcome {
                 forms: (0..3).map(|_| *rng.pick(FORMS)).collect(),
                 stamps: (0..3).map(|_| *rng.pick(&[100_000i64, 200_000, 200_200, 200_700, 300_000, 400_000])).collect(),
                 later: rng.chance(1, 3),
+                free: vec![],
             };
             let mut out = CaseOut::new();
             out.evaluations = 0;
@@ -425,7 +520,40 @@ pub fn run(ctx: &Ctx) -> Outcome {
             out
         });
     }
+    if want("free-form") {
+        // 2-3 replicas, 1-3 updates each on p/q with values from a shared alphabet and timestamps from
+        // a small set (ties, inversions inside one replica's own sequence)
+        let (lo, hi) = range(ctx.tier.pick(6000, 150_000));
+        run_cases(&mut acc, "free-form", hi - lo, |i| {
+            let i = i + lo;
+            let mut rng = Rng::derive(seed, "c03-free", i);
+            let n = 2 + rng.below(2) as usize;
+            let free = (0..n)
+                .map(|_| {
+                    (0..1 + rng.below(3))
+                        .map(|_| {
+                            let prop = if rng.chance(3, 4) { "p" } else { "q" }.to_string();
+                            let v = match rng.below(5) {
+                                0 => None,
+                                1 => Some(String::new()),
+                                2 => Some("X".to_string()),
+                                3 => Some("Y".to_string()),
+                                _ => Some("0".to_string()),
+                            };
+                            (prop, v, *rng.pick(&[10_000i64, 20_000, 20_300, 30_000, 40_000]))
+                        })
+                        .collect()
+                })
+                .collect();
+            let sc = Scenario { forms: vec![], stamps: vec![], later: false, free };
+            let mut out = CaseOut::new();
+            out.evaluations = 0;
+            judge(&sc, "free-form", i, &mut out);
+            out
+        });
+    }
     if only.is_none() {
+        acc.require("free_form_scenarios", 1000, "too few free-form scenarios");
         acc.require("rule_expectations_checked", 100, "too few rule-derived expectations");
         acc.require("order_independence_checks", 300, "too few order-independence checks");
         acc.require("later_changes_checked", 50, "too few causally-later changes");
